@@ -153,6 +153,9 @@ def run(pid, tier, seed):
     parts = [("engine", collect(pid, tier, seed, d, binp))]
     if pid in WITH_BATCH:
         parts.append(("batch", fam_batch.collect(pid, tier, seed, d, binp)))
+    if pid in ("C02", "C05"):
+        import fam_timing
+        parts.append(("timing", fam_timing.collect(pid, tier, seed, d, binp)))   # cancellation from outside during a retry wait
     return fam_batch.finish(pid, tier, seed, d, t0, parts)
 
 
